@@ -19,6 +19,12 @@ def run(ctx):
     rule_T2_publish(ctx)      # a half-finished checkpoint update is never published
     from ..effects import rule_F4
     rule_F4(ctx)      # proposal streams are a function of the persisted generator state only
+    # effect rules first: they do not depend on the shape of the view construction, which the
+    # lockstep rules below need (C03_m: a helper that returns a VIEW of the only shell)
+    rule_F5(ctx)
+    rule_F7(ctx)
+    from ..effects import rule_F11
+    rule_F11(ctx)      # the returned triples are copies, not views of the stored rows
     rule_L1_sampler(ctx, {'rows', 't', 'shell'})
     rule_L2_move(ctx)
     rule_L3_L4(ctx)
@@ -31,8 +37,6 @@ def run(ctx):
     rule_S1(ctx, ['Sampler.evaluate_likelihood', 'Sampler.add_samples', 'Sampler.sample_shell',
                   'Sampler.posterior'])
     rule_V1(ctx)
-    rule_F5(ctx)
-    rule_F7(ctx)
     rule_A5(ctx)        # each evaluated / transferred point is used at most once
     # ... also across a checkpoint resume: the rows, the transfer candidates and their
     # consumed marks reach the file after every batch and come back into the same attributes
